@@ -333,7 +333,17 @@ func (e *c20Engine) generate(seed uint64) (*kit.Trace, *kit.Rng) {
 		copy(ch[:], h)
 		prevs = append(prevs, prevRef{ch, 2})
 	}
+	// decided early because it shapes the rest: a bystander task with a
+	// private second filter; in half of those runs a "relay duel" - both
+	// filters do nothing but MatchTxAndUpdate on the same one or two
+	// transactions (helpers shared between Filter objects are then entered
+	// by two filters for equal arguments)
+	withBystander := kind == kindLin && nt <= 4 && cr.Chance(1, 4)
+	duel := withBystander && cr.Chance(1, 2)
 	ntx := cr.Range(1, 4)
+	if duel {
+		ntx = cr.Range(1, 2)
+	}
 	if kind == kindComposite {
 		ntx = cr.Range(2, 7)
 	}
@@ -360,6 +370,9 @@ func (e *c20Engine) generate(seed uint64) (*kit.Trace, *kit.Rng) {
 	}
 	// workload profile
 	profile := cr.Intn(4)
+	if duel {
+		profile = 6
+	}
 	if nt >= 8 && kind == kindLin && cr.Chance(3, 4) {
 		profile = 4 // insert/query only: decidable for many tasks
 	}
@@ -401,7 +414,7 @@ func (e *c20Engine) generate(seed uint64) (*kit.Trace, *kit.Rng) {
 		}
 		t.Clients = append(t.Clients, ops)
 	}
-	if kind == kindLin && nt <= 4 && cr.Chance(1, 4) {
+	if withBystander {
 		// a bystander: one more task using its OWN private filter (other
 		// tweak, other shape). Nothing the other tasks do may disturb it, and
 		// it must not disturb them: state shared between Filter objects
@@ -410,7 +423,7 @@ func (e *c20Engine) generate(seed uint64) (*kit.Trace, *kit.Rng) {
 		var ops []kit.Op
 		for i, n := 0, wr.Range(2, 8); i < n; i++ {
 			o := e.genOp(wr, kind, 4, 0, nt, nm, ntx, pool, hashes)
-			if wr.Chance(2, 5) {
+			if duel || wr.Chance(2, 5) {
 				o = kit.Op{K: "mtx", H: wr.Intn(ntx)}
 			}
 			o.S = "by"
@@ -450,6 +463,8 @@ func (e *c20Engine) genOp(r *kit.Rng, kind, profile, c, nt, nm, ntx int, pool, h
 		}
 	case 3: // reload storm
 		w = []int{2, 8, 5, 4, 1, 1, 4, 1, 3, 3, 0, 0}
+	case 6: // relay duel: transaction matching only
+		w = []int{1, 0, 0, 1, 0, 0, 0, 0, 14, 0, 0, 0}
 	case 4: // insertions and queries only
 		w = []int{1, 0, 0, 8, 2, 3, 8, 3, 0, 1, 0, 0}
 	}
